@@ -196,11 +196,11 @@ def partial_write_rule(f, P, rep, rid):
             continue
         if b.is_coroutine or b.kind == 'Closure':
             ups = f.types[b.locals[1]].get('u') or []
-            ints = {i for i, t in enumerate(ups) if f.types[t]['k'] == 'prim' and f.types[t].get('n', '')[:1] in 'ui'
-                    and f.types[t].get('n') not in ('u8',)}
+            ints = {i for i, t in enumerate(ups) if f.types[t]['k'] == 'prim' and f.types[t].get('p', '-')[:1] in 'ui'
+                    and f.types[t].get('p') not in ('u8',)}
         else:
             ints = {i - 1 for i in range(1, b.argc + 1) if f.types[b.locals[i]]['k'] == 'prim'
-                    and f.types[b.locals[i]].get('n', '')[:1] in 'ui'}
+                    and f.types[b.locals[i]].get('p', '-')[:1] in 'ui'}
         dp = Deps(P, b)
         for wbi, wt in writes:
             bufdeps = dp.of_operand(wt['args'][2], (wbi, 10 ** 6))
